@@ -266,7 +266,7 @@ func suiteOps(o *suiteOut, r *rng, tier string, n int) {
 		replayRun(o, l)
 		o.count("corpus cases")
 	}
-	plrmOpTable(o)
+	plrmOpTable(o, p)
 	for _, a := range aliasPrograms {
 		p.run(100000, false, a)
 		o.count("aliasing / sharing programs")
